@@ -26,8 +26,8 @@ package mqttproxy
 //   disconnect  readLoop's exit path: closeAndDelSession + Broker.removeClient
 //
 // Observation. A PUBLISH is "admitted" when it reached the publish pipeline
-// or was answered with a PUBACK carrying its id, "rejected" when neither
-// happened. Its size is its length on the wire. The limiter's clock reads
+// (the backend side of the limiter), "rejected" when it did not; the PUBACK
+// of a QoS1 publish is recorded as well. Its size is its length on the wire. The limiter's clock reads
 // (see c09_test.go) give the arrival instant and the creation instant of each
 // limiter; a PUBLISH that was admitted without the limiter having been asked
 // is stamped with the current instant.
@@ -53,7 +53,8 @@ package mqttproxy
 //     previous connection with that id (probes mqttc.reconnect_fresh_limiter /
 //     mqttc.reconnect_continued_limiter).
 //   * PUBACK without forward / forward without PUBACK are only probed (the
-//     statement does not speak about acknowledgements).
+//     statement does not speak about acknowledgements; a broker may
+//     acknowledge what it drops).
 //   * packets are not sent on a connection after its id has been taken over,
 //     wills are not generated, a client's packets are processed one at a time
 //     (as readLoop does).
@@ -478,7 +479,7 @@ func c09ExecMQTTClients(e *c09Env, sc *c09Scenario, main *c09TL) {
 						acked = true
 					}
 				}
-				admitted = fwd || acked
+				admitted = fwd // what the limiter released is what reaches the pipeline
 				o := c09MObs{who: who, a: t0, bytes: n, hi: n + c09FrameSlack, ok: admitted,
 					note: fmt.Sprintf("[PUBLISH qos=%d dup=%v retain=%v id=%d topic=%dB payload=%dB forwarded=%v puback=%v limiter-asked=%d]", qos, dup, retain, mid, len(topic), payload, fwd, acked, len(tl.nows))}
 				if len(tl.nows) > 0 {
